@@ -272,6 +272,9 @@ func (t *Dense) SliceInto(view *Dense, slices ...Slice) (retVal View, err error)
 	}
 
 	view.AP.zero()
+	// "override ALL the metadata": a lazy transpose still pending on the recycled view is gone too
+	view.old.zero()
+	view.transposeWith = nil
 
 	view.t = t.t
 	view.e = t.e
@@ -283,6 +286,8 @@ func (t *Dense) SliceInto(view *Dense, slices ...Slice) (retVal View, err error)
 
 	if t.IsMasked() {
 		view.mask = t.mask[ndStart:ndEnd]
+	} else {
+		view.mask = nil // not the mask the recycled view had before
 	}
 
 	return view, err
